@@ -11,6 +11,7 @@ import PyttbModel.Lemmas.MLTucker
 import PyttbModel.Lemmas.MLMttkrpW
 import PyttbModel.Lemmas.MLSparseMttkrp
 import PyttbModel.Lemmas.MLDenseContract
+import PyttbModel.Lemmas.MLSumFull
 namespace Pyttb
 
 variable {α : Type}
@@ -136,6 +137,15 @@ and entries `Σ_j G[j] ∏ₙ Uₙ[iₙ, jₙ]`. -/
 theorem C02_tucker_full [CommSemiring α] (T : Ttensor α) (hT : ML.TuckerWF T) (hN : 1 ≤ T.factors.length) :
     ∃ D, T.full = .ok D ∧ D.shape = T.shape ∧ D.WF ∧ ∀ i, InBounds D.shape i → D.get i = T.get i :=
   ML.tucker_full_spec T hT hN
+
+/-- `sumtensor.full()` for parts of any representation (dense, sparse, Kruskal, Tucker) of one shape
+with positive extents: the first part is expanded, the others are expanded and added, and the result
+denotes `Σ_p ⟦p⟧[i]`. -/
+theorem C02_sum_full [CommSemiring α] [DecidableEq α] (p0 : ML.Part α) (ps : List (ML.Part α))
+    (hwf : ∀ p ∈ p0 :: ps, ML.PartWF p) (hsh : ∀ p ∈ ps, p.shape = p0.shape) (hpos : ∀ e ∈ p0.shape, 0 < e) :
+    ∃ D, ML.Sumtensor.full (p0 :: ps) = .ok D ∧ D.shape = p0.shape ∧ D.WF ∧
+      ∀ i, InBounds p0.shape i → D.get i = p0.get i + (ps.map fun p => p.get i).sum :=
+  ML.sum_full_spec p0 ps hwf hsh hpos
 
 /-! ### matricized tensor times Khatri-Rao product -/
 
